@@ -36,14 +36,14 @@ extern _Atomic(int) opd_format_table_index[26];
 /* work items: (options, chunk, counting, program) - private per thread */
 struct item { int mov, swap, nobase, chunk, count; const char *text; int usefile; int internal; };
 static const struct item ITEMS[] = {
-    {2, 1, 1, 0, 0, "mov rax, 0x5\nadd rax, rcx\nlea rdx, [rax+rsp]\nlea rcx, [2*rax]\nret\n"},
+    {2, 1, 1, 0, 0, "mov rax, 0x5\nadd rax, rcx\nxchg rax, r9\nlea rdx, [rax+rsp]\nlea rcx, [2*rax]\nxchg eax, ecx\nret\n"},
     /* the file entry points (files of different sizes, private to the item): placed so that two threads run them side by side */
     {2, 1, 1, 0, 0, "mov rax, 0x5\nret\n", 1},
     {0, 1, 0, 0, 8, "vpaddb ymm1, ymm2, [rax+r9*4]\nadd rax, rcx\nlea rdx, [rax+rsp]\nmov rax, 0x1122334455667788\npush r11w\nshl rax, 0x5\nnop9\nret\n", 1},
     /* a file that turns out shorter than fstat announced (the harness ends its first read early): the call must fail, alone as
        well as next to other threads, and must not disturb their files */
     {2, 1, 1, 0, 0, "mov rax, 0x7\nadd rax, rcx\nret\n", 2},
-    {0, 0, 0, 8, 0, "mov rax, 0x1122334455667788\nvpaddb ymm1, ymm2, [rax+r9*4]\npush r11w\nshl rax, 0x5\nret\n"},
+    {0, 0, 0, 8, 0, "mov rax, 0x1122334455667788\nvpaddb ymm1, ymm2, [rax+r9*4]\nxchg rax, rbx\npush r11w\nshl rax, 0x5\nxchg ax, r12w\nret\n"},
     {1, 1, 0, 0, 16, "xor eax, eax\nimul rax, rcx, 0x12345\nmovq xmm1, rax\nbzhi ecx, [r13+rcx*4], r10d\njne -0x1000\nret\n"},
     {2, 0, 1, 16, 0, "paddb mm1, [rax]\nsetc al\ncmovne rax, r11\nmulx r8, r9, [rsi]\nmov qword [rax+0x12345], 0x5\nret\n"},
     {1, 0, 1, 0, 3, "nop11\nnop7\nadd qword [rax+rcx*4+0x10], 0x12345678\nxchg eax, eax\nbogus line\nret\n"},
